@@ -289,12 +289,21 @@ def _decl_leaf_pred(mode):
     return lambda x: _leaf(x, mode) is not None
 
 
-def _check_sharded_decl(opt_init, params, state, ptd, fails, out):
+def _param_pspec(ndim, style):
+    """entries of a parameter's PartitionSpec: one per dimension | P() | P(None) (P() for scalars)"""
+    if style == "empty":
+        return []
+    if style == "none1":
+        return [None] if ndim >= 1 else []
+    return [None] * ndim
+
+
+def _check_sharded_decl(opt_init, params, state, ptd, fails, out, style="full"):
     """init state vs shape_and_dtype_fn vs pspec_fn"""
     import jax
     from jax.sharding import PartitionSpec as P
     decl = opt_init.shape_and_dtype_fn(params)
-    pps = jax.tree.map(lambda p: P(*([None] * p.ndim)), params)
+    pps = jax.tree.map(lambda p: P(*_param_pspec(p.ndim, style)), params)
     spec = opt_init.pspec_fn(params, pps, P("x", None, None))
     out["decl_sig"] = sig(decl, ptd, "decl")
     out["pspec_sig"] = sig(spec, ptd, "pspec")
@@ -367,7 +376,7 @@ def run_ds(case, out):
         out["init_sig"] = sig(state, ptd)
         if sharded:
             out["phase"] = "decl"
-            _check_sharded_decl(fns, params, state, ptd, fails, out)
+            _check_sharded_decl(fns, params, state, ptd, fails, out, case.get("pspec", "full"))
         out["phase"] = "update"
         T = case.get("T", 3)
         grads = [_grads(params, t, case.get("gseed", 0)) for t in range(T)]
@@ -600,7 +609,9 @@ def gen_ds_cfg(rng):
         c["batch_axis_name"] = "batch"
     if mode == "sharded":
         c["shard_optimizer_states"] = True
-        c["num_devices_for_pjit"] = rng.choice([1, 2, 3])
+        c["num_devices_for_pjit"] = rng.choice([1, 2, 3]) if rng.random() < 0.92 else rng.choice([None, 0])
+        if rng.random() < 0.3:   # pmap-mode option inside pjit mode (D22)
+            c["batch_axis_name"] = "batch"
     if rng.random() < 0.35:  # frequent-directions family, mostly with its required companions
         c["frequent_directions"] = True
         c["compression_rank"] = rng.choice([1, 1, 2, 2, 3]) if rng.random() < 0.93 else rng.choice([0, -1])
@@ -708,6 +719,8 @@ def gen_cases(tier, seed):
                 "gseed": seed * 1000 + gid}
         if mode == "pmap":
             case["ndev"] = rng.choice([1, 2])
+        if mode == "sharded":
+            case["pspec"] = rng.choice(["full", "full", "empty", "none1"])
         cases.append(case)
     for _ in range(n_tf):
         gid += 1
@@ -760,7 +773,7 @@ def model_request(case, k=3):
             "block_size": max(int(c["block_size"]), 0), "best_effort_shape_interpretation": bool(c["best_effort_shape_interpretation"]),
             "merge_small_dims_block_size": int(c["merge_small_dims_block_size"]),
             "graft_has_diag": c["graft_type"] not in ("SGD", "SQRT_N", "NONE"),
-            "batch_axis": bool(c["batch_axis_name"]), "shard": sharded, "ndev": int(c["num_devices_for_pjit"] or 0),
+            "batch_axis": bool(c["batch_axis_name"]), "shard": sharded, "ndev": max(int(c["num_devices_for_pjit"] or 0), 0),
             "best_effort_memory_usage_reduction": bool(c["best_effort_memory_usage_reduction"]),
             "skip_preconditioning_dim_size_gt": int(c["skip_preconditioning_dim_size_gt"]),
             "skip_preconditioning_rank_lt": int(c["skip_preconditioning_rank_lt"]),
@@ -775,7 +788,7 @@ def model_request(case, k=3):
         }
         r = {"op": "ds", "cfg": cfg, "shapes": case["shapes"], "k": k}
         if sharded:
-            r["pspecs"] = [[""] * len(s) for s in case["shapes"]]
+            r["pspecs"] = [["" for _ in _param_pspec(len(s), case.get("pspec", "full"))] for s in case["shapes"]]
             r["stat_spec"] = ["x", "", ""]
         return r
     if case["opt"] == "sm3":
@@ -992,8 +1005,8 @@ def run(ctx):
         "comparison policy EXACT: outcome kind, phase, exception class, full layout signature (node kinds, static fields, shapes, dtypes)",
         "exception messages are not compared; 'explanatory rejection' = ValueError/NotImplementedError/AssertionError with a non-empty "
         "message whose innermost frame is inside the precondition package",
-        "scope: shard_optimizer_states is always combined with num_devices_for_pjit >= 1 and statistics/preconditioner partition specs "
-        "(as its documentation requires) and never with batch_axis_name; parameter partition specs have one entry per dimension; "
+        "scope: shard_optimizer_states is always combined with statistics/preconditioner partition specs (num_devices_for_pjit may be "
+        "None/0 -> constructor rejection; batch_axis_name may be set as well); parameter partition specs: one entry per dimension, P() or P(None); "
         "block_size >= 0; float32 parameters in the main streams (other dtypes: separate oracle-only stream, known finding K7); dimensions >= 1; Sketchy memory_alloc=None; optax's adafactor state is an opaque node",
         "TrainingMetrics / FDDiagnostics subtrees are collapsed to one representative leaf when all their leaves agree",
         "multi-device pmap of a tree without statistics is traced with jax.eval_shape only (jaxlib CPU compiler segfault, not the package's)",
